@@ -394,8 +394,13 @@ func init() {
 	intrinsics["crypto/sha256.Sum256"] = func(e *Engine, st *State, fr *Frame, args []Value, in *ssa.Call) Value {
 		e.usedIntrinsic("crypto/sha256.Sum256")
 		env := &SpecEnv{e: e, st: st, fnName: "sha256.Sum256"}
-		sl := args[0].(*SliceVal)
-		s := mkApp("absorb", SInt, sha256Init(), env.bstr(env.nonNil(sl)))
+		var msg *Term
+		if sv, ok := args[0].(*StrVal); ok && strAbs(sv) != nil {
+			msg = strAbs(sv) // []byte(s) of a string whose bytes are not tracked
+		} else {
+			msg = env.bstr(env.nonNil(args[0].(*SliceVal)))
+		}
+		s := mkApp("absorb", SInt, sha256Init(), msg)
 		out := hashoutArr(s)
 		a := &AggVal{typ: in.Type()}
 		for i := int64(0); i < 32; i++ {
@@ -565,6 +570,37 @@ func init() {
 			env.fail("strabs(%s): not a string with an abstract value", exprString(n.Args[0]))
 		}
 		return strAbs(sv)
+	}
+	// validutf8(s): the string is valid UTF-8 (uninterpreted predicate of its abstract value)
+	specFuncs["validutf8"] = func(env *SpecEnv, n *ast.CallExpr) Value {
+		sv, ok := env.eval(n.Args[0]).(*StrVal)
+		if !ok || strAbs(sv) == nil {
+			env.fail("validutf8(%s): not a string with an abstract value", exprString(n.Args[0]))
+		}
+		return mkApp("validutf8", SBool, strAbs(sv))
+	}
+	specFuncs["strlen"] = func(env *SpecEnv, n *ast.CallExpr) Value {
+		sv, ok := env.eval(n.Args[0]).(*StrVal)
+		if !ok || strAbs(sv) == nil {
+			env.fail("strlen(%s): not a string with an abstract value", exprString(n.Args[0]))
+		}
+		if sv.known {
+			return mkInt64(int64(len(sv.s)))
+		}
+		return mkApp("strlen", SInt, sv.abs)
+	}
+	intrinsics["strings.ToValidUTF8"] = func(e *Engine, st *State, fr *Frame, args []Value, in *ssa.Call) Value {
+		e.usedIntrinsic("strings.ToValidUTF8")
+		s, ok := args[0].(*StrVal)
+		if !ok || strAbs(s) == nil {
+			e.fail("strings.ToValidUTF8: argument without an abstract value")
+		}
+		// the result equals the argument iff the argument is valid UTF-8 (invalid sequences are replaced, and
+		// no replacement string reproduces the invalid bytes it replaces: for "" the result is shorter, in
+		// general the result is valid UTF-8 and the argument is not)
+		r := mkIntVarR(e.freshName("toValidUTF8"), nil, nil)
+		st.assume(mkIff(mkEq(r, strAbs(s)), mkApp("validutf8", SBool, strAbs(s))))
+		return &StrVal{abs: r}
 	}
 	specFuncs["bcat"] = func(env *SpecEnv, n *ast.CallExpr) Value {
 		return mkBcat(env.term(n.Args[0]), env.term(n.Args[1]))
